@@ -118,23 +118,25 @@ def inhabited(f):
     return all(inhabited(x) for x in f[2])
 
 
-def constructible(f):
+def constructible(f, top=True):
     k = f[0]
-    if k in ('np', 'empty', 'str'):
+    if k == 'empty':
+        return top
+    if k in ('np', 'str'):
         return True
     if k == 'la':
         return False
     if k in ('lo', 'ix', 'ixo'):
-        return constructible(f[2])
+        return constructible(f[2], False)
     if k == 'reg':
-        return f[1] >= 1 and constructible(f[2])
+        return f[1] >= 1 and constructible(f[2], False)
     if k == 'bym':
-        return constructible(f[2])
+        return constructible(f[2], False)
     if k == 'bim':
-        return constructible(f[3])
+        return constructible(f[3], False)
     if k == 'unm':
-        return constructible(f[1])
-    return len(f[2]) > 0 and all(constructible(x) for x in f[2])
+        return constructible(f[1], False)
+    return len(f[2]) > 0 and all(constructible(x, False) for x in f[2])
 
 
 # ------------------------------------------------------------------ values
@@ -301,10 +303,30 @@ def sprinkle(rng, cmds, what, n):
     return cmds
 
 
+def starts_with_null(f):
+    k = f[0]
+    if k in ('ixo', 'bym', 'bim'):
+        return True
+    if k in ('reg', 'ix'):
+        return starts_with_null(f[2])
+    if k == 'unm':
+        return starts_with_null(f[1])
+    if k == 'rec':
+        return len(f[2]) > 0 and starts_with_null(f[2][0])
+    return False
+
+
+def unambiguous(f):
+    k = f[0]
+    if k in ('ixo', 'bym', 'bim') and starts_with_null(f[-1]):
+        return False
+    return all(unambiguous(c) for c in children(f))
+
+
 def gen_values(rng, f, target):
     pnone = rng.choice([0.05, 0.15, 0.3])
     vals, cmds, bounds = [], [], [0]
-    if not (constructible(f) and inhabited(f)):
+    if not (constructible(f) and unambiguous(f) and inhabited(f)):
         return vals, cmds, bounds
     for _ in range(200):
         v = gen_value(rng, f, pnone)
@@ -330,7 +352,8 @@ def make_case(cid, opts, f, cmds, vals, tags):
 # ------------------------------------------------------------------ run
 def run_lbrun(lines):
     exe = os.path.join(BLD, 'lbrun')
-    p = subprocess.run('ulimit -s unlimited 2>/dev/null; exec ' + exe, shell=True, input='\n'.join(lines) + '\n',
+    # default stack: a dump with a garbage index makes to_list recurse deeply; lbrun reports it as unreadable
+    p = subprocess.run(exe, shell=True, input='\n'.join(lines) + '\n',
                        stdout=subprocess.PIPE, stderr=subprocess.PIPE, text=True, timeout=3600)
     out = {}
     for ol in p.stdout.splitlines():
@@ -426,10 +449,6 @@ def features(f):
         k = x[0]
         if k in ('ixo', 'ix', 'un', 'reg') and under_list and any(has(c, LISTISH) for c in children(x)):
             r.append('lb-active-not-forwarded')
-        if k == 'un':
-            for i, c in enumerate(x[2]):
-                if (i >= 1 and has(c, LISTISH)) or has(c, ('rec',)) and has(x, LISTISH):
-                    r.append('lb-union-tag-not-routed')
         if k == 'rec':
             # RecordArrayBuilder advances its field counter on every scalar command and on every end_list, and
             # remembers the field of an open list by that counter: only records whose list fields are one-level
@@ -470,14 +489,14 @@ def in_spec_fragment(f):
 SIGNATURES = {
     'lb-length-constant': 'LayoutBuilder::length() (Python len(builder)) is the constant 8: length_ is initialised to 8 and never updated',
     'lb-masked-forms-pass-through': 'ByteMasked/BitMasked/UnmaskedArrayBuilder: snapshot returns the content (the option node and the mask are dropped: type int64 instead of ?int64) and null is refused',
-    'lb-union-snapshot-index-overflow': 'UnionArrayBuilder::snapshot passes lentags as the size of the scratch array `current` of awkward_UnionArray_regular_index: out-of-bounds read/write when a tag value >= number of elements so far (first element with tag 1), garbage index; a snapshot between tag and value reads the content beyond its length',
+    'lb-union-snapshot-index-overflow': 'UnionArrayBuilder::snapshot passes lentags as the size of the scratch array `current` of awkward_UnionArray_regular_index: out-of-bounds read/write when a tag value >= number of elements so far (first element with tag 1), garbage index; a snapshot between tag and value reads the content beyond its length; LayoutBuilder::tag never calls UnionArrayBuilder::tag, so begin_list/end_list always go to alternative 0',
     'lb-two-index-nodes-variable-clash': 'two IndexedForm/IndexedOptionForm nodes in one Form: the generated AwkwardForth declares `variable index` / `variable null` once per node, the constructor raises',
     'lb-regular-below-node-miscounted': 'RegularForm below a list / option / record / union: the enclosing node counts one element per content item instead of one per `size` items (offsets (0 4) over a RegularArray of length 2)',
     'lb-wrapper-drops-content-init': 'Indexed/RegularArrayBuilder::vm_from_stack return an empty string: a ListOffsetForm / IndexedOptionForm below them is never initialised (offsets without the leading 0)',
     'lb-active-not-forwarded': 'IndexedOption/Indexed/Union/RegularArrayBuilder do not override active(): end_list of a list below them, itself below a list, closes the outer level on the C++ side; the next end_list raises',
-    'lb-union-tag-not-routed': 'LayoutBuilder::tag never calls UnionArrayBuilder::tag: begin_list/end_list are always routed to alternative 0',
     'lb-record-list-field-routing': 'RecordArrayBuilder field counter advances per scalar command / per end_list / not at all for null: strings in records, nested lists in a field, a nested record or an option next to a list field are routed to the wrong field (conforming session raises or loses a list)',
     'lb-midelement-snapshot-invalid': 'snapshot in the middle of an element below IndexedOption/Indexed/Union: the index / tags entry is written before the element is complete (invalid layout)',
+    'lb-input-buffer-initial': 'LayoutBuilder(form, initial < 8): the one-datum input buffer of the Forth machine is allocated with `initial` bytes and set_data<int64_t>/<double> writes 8 (complex: 16, also with the default initial = 8): heap-buffer-overflow (seen by the sanitizer build only)',
     'lb-record-endlist-empty-stack': 'RecordArrayBuilder::end_list with no list open calls back()/pop_back() on an empty std::vector: segmentation fault',
 }
 
@@ -604,6 +623,9 @@ def signature(c, impl, v):
     line = c.line()
     cmds = re.search(r'\(cmds(.*?)\)( \(vals|\)$)', line)
     cmdtxt = cmds.group(1) if cmds else ''
+    mo = re.search(r'\(opts (-?\d+) ', line)
+    if mo and int(mo.group(1)) < 8:
+        return 'lb-input-buffer-initial'
     ft = features(f)
     if '(crash)' in v or impl.startswith('crash'):
         if has(f, ('rec',)) and 'endlist' in cmdtxt:
